@@ -95,6 +95,58 @@ theorem scan_length (t : KRows) : (scan t).length = (t.map (·.2)).sum := by
   | nil => simp [scan]
   | cons e rest ih => obtain ⟨r, c⟩ := e; simp [scan, ih]
 
+/-- storage invariant: one entry per distinct row -/
+def WF (t : KRows) : Prop := (t.map (·.1)).Nodup
+
+theorem card_eq_zero_of_not_mem (t : KRows) (r : Row) (h : r ∉ t.map (·.1)) : card t r = 0 := by
+  induction t with
+  | nil => rfl
+  | cons e rest ih =>
+    obtain ⟨r', c⟩ := e
+    simp only [List.map_cons, List.mem_cons, not_or] at h
+    have : ¬ r' = r := fun e => h.1 e.symm
+    simp [card, this, ih h.2]
+
+/-- **keyless_refines_multiset (scan)**: a full scan shows every row exactly `card` times -/
+theorem scan_count (t : KRows) (h : WF t) (r : Row) : (scan t).count r = card t r := by
+  induction t with
+  | nil => simp [scan, card]
+  | cons e rest ih =>
+    obtain ⟨r', c⟩ := e
+    simp only [WF, List.map_cons, List.nodup_cons] at h
+    have ih' := ih h.2
+    simp only [scan, List.count_append, card, ih']
+    by_cases hr : r' = r
+    · subst hr
+      simp [List.count_replicate, card_eq_zero_of_not_mem rest r' h.1]
+    · have : ¬ (r' == r) = true := by simpa using hr
+      simp [List.count_replicate, hr, this]
+
+theorem map_filter_ne (t : KRows) (r : Row) :
+    (t.filter (fun e => e.1 != r)).map (·.1) = (t.map (·.1)).filter (fun x => x != r) := by
+  induction t with
+  | nil => rfl
+  | cons e rest ih => by_cases he : (e.1 != r) = true <;> simp [List.filter_cons, he, ih]
+
+theorem wf_setCard (t : KRows) (h : WF t) (r : Row) (c : Nat) : WF (setCard r c t) := by
+  unfold WF setCard at *
+  have hf : ((t.filter (fun e => e.1 != r)).map (·.1)).Nodup := by
+    rw [map_filter_ne]
+    exact h.filter _
+  by_cases hc : c = 0
+  · simpa [hc] using hf
+  · simp only [hc, if_false, List.singleton_append, List.map_cons, List.nodup_cons]
+    refine ⟨?_, hf⟩
+    simp [List.mem_map, List.mem_filter]
+
+theorem wf_insert (t : KRows) (h : WF t) (r : Row) : WF (Keyless.insert t r) := wf_setCard t h r _
+
+theorem wf_delete (t : KRows) (h : WF t) (r : Row) : WF (delete t r) := by
+  unfold delete
+  cases card t r with
+  | zero => exact h
+  | succ n => exact wf_setCard t h r n
+
 /-- **keyless_merge_spec**: one side unchanged → the merged multiplicity is base + Δours + Δtheirs
 (written without subtraction) and no conflict; both sides changed (equally or not — dolt treats
 convergent keyless edits as conflicts, merge_rows.go MaybeShortCircuit / computeProllyTreePatches)
@@ -119,6 +171,53 @@ theorem keyless_merge_spec (b l r : Nat) :
       · exact h
     subst h2
     simp [h1]
+
+/-- the fold of `mergeKeyless` over any list of row identities -/
+def foldMerge (base left right : KRows) (rs : List Row) : KMerged :=
+  rs.foldr (fun (row : Row) (acc : KMerged) =>
+    let b := card base row
+    let l := card left row
+    let r := card right row
+    let (c, conf, op) := mergeCard b l r
+    { rows := if c = 0 then acc.rows else (row, c) :: acc.rows
+      conflicts := if conf then ⟨row, b, l, r⟩ :: acc.conflicts else acc.conflicts
+      stats := statOf op acc.stats }) ⟨[], [], {}⟩
+
+theorem foldMerge_card (base left right : KRows) (rs : List Row) (row : Row) :
+    card (foldMerge base left right rs).rows row =
+      if row ∈ rs then (mergeCard (card base row) (card left row) (card right row)).1 else 0 := by
+  induction rs with
+  | nil => simp [foldMerge, card]
+  | cons x xs ih =>
+    simp only [foldMerge, List.foldr_cons] at ih ⊢
+    by_cases hx : x = row
+    · subst hx
+      by_cases hc : (mergeCard (card base x) (card left x) (card right x)).1 = 0
+      · simp only [hc, if_true, ih, List.mem_cons, true_or]
+        split <;> simp [hc]
+      · simp [hc, card]
+    · have hx' : ¬ row = x := fun e => hx e.symm
+      by_cases hc : (mergeCard (card base x) (card left x) (card right x)).1 = 0
+      · simp [hc, ih, hx']
+      · simp [hc, card, hx, ih, hx']
+
+/-- **keyless_merge_spec (table level)**: for every row identity, the merged table holds exactly
+the multiplicity `mergeCard` prescribes from the three input multiplicities -/
+theorem mergeKeyless_card (base left right : KRows) (row : Row) :
+    card (mergeKeyless base left right).rows row =
+      (mergeCard (card base row) (card left row) (card right row)).1 := by
+  have h := foldMerge_card base left right (allRows base left right) row
+  have e : (mergeKeyless base left right).rows = (foldMerge base left right (allRows base left right)).rows := rfl
+  rw [e, h]
+  by_cases hm : row ∈ allRows base left right
+  · simp [hm]
+  · have nb : card base row = 0 := card_eq_zero_of_not_mem base row (fun hb => hm (by
+      simp only [allRows, List.mem_eraseDups, List.map_append, List.mem_append]; exact Or.inl (Or.inl hb)))
+    have nl : card left row = 0 := card_eq_zero_of_not_mem left row (fun hb => hm (by
+      simp only [allRows, List.mem_eraseDups, List.map_append, List.mem_append]; exact Or.inl (Or.inr hb)))
+    have nr : card right row = 0 := card_eq_zero_of_not_mem right row (fun hb => hm (by
+      simp only [allRows, List.mem_eraseDups, List.map_append, List.mem_append]; exact Or.inr hb))
+    simp [hm, nb, nl, nr, mergeCard]
 
 /-- the row counters of a keyless merge follow the same ops as the keyed row path -/
 theorem mergeCard_op (b l r : Nat) (h : l = b) (hr : r ≠ b) :
